@@ -603,16 +603,26 @@ class QueryObjectDescriptor(CanBehaveLikeAVariable[T], ABC):
                     v = conclusion._evaluate__(v)
             self._warn_on_unbound_variables_(v, selected_vars)
             if selected_vars:
-                var_val_gen = {var: var._evaluate__(copy(v))
-                               for var in selected_vars}
-                original_v = v
-                for sol in generate_combinations(var_val_gen):
-                    v = copy(original_v)
-                    var_val = {var._id_: sol[var][var._id_] for var in selected_vars}
-                    v.update(var_val)
-                    yield v
+                yield from self._bind_selected_variables_one_after_the_other_(v, list(selected_vars))
             else:
                 yield v
+
+    def _bind_selected_variables_one_after_the_other_(self, bindings: Dict[int, HashedValue],
+                                                      selected_vars: List[CanBehaveLikeAVariable]) \
+            -> Iterable[Dict[int, HashedValue]]:
+        """
+        Bind the selected expressions that are still unbound one after the other, each under the bindings made by
+        the previous ones, such that a selected expression that depends on another one (e.g. x.a or flatten(x.items)
+        next to x) stays correlated with it instead of being combined with it by Cartesian product.
+        """
+        if not selected_vars:
+            yield bindings
+            return
+        var, remaining_vars = selected_vars[0], selected_vars[1:]
+        for var_val in var._evaluate__(copy(bindings)):
+            new_bindings = copy(bindings)
+            new_bindings.update(var_val)
+            yield from self._bind_selected_variables_one_after_the_other_(new_bindings, remaining_vars)
 
     def _warn_on_unbound_variables_(self, sources: Dict[int, HashedValue],
                                     selected_vars: Iterable[CanBehaveLikeAVariable]):
